@@ -431,11 +431,17 @@ func cdGeneric(t reflect.Type, ser func(p reflect.Value, w io.Writer) error,
 		de: func(in []byte) (any, int64, []int64, error) {
 			p := reflect.New(t)
 			r := bytes.NewReader(in)
-			err := de(p, r)
+			err := de(p, cdPlain{r})
 			return p.Interface(), int64(len(in) - r.Len()), nil, err
 		},
 	}
 }
+
+// cdPlain hides everything but Read: the node decodes from a net.Conn, which has no Len(), no ReadByte() and
+// cannot be rewound, so the wire decoders are run on a reader that offers nothing more either.
+type cdPlain struct{ r *bytes.Reader }
+
+func (p cdPlain) Read(b []byte) (int, error) { return p.r.Read(b) }
 
 func cdSer(p reflect.Value, w io.Writer) error { return p.Interface().(cdSerDe).Serialize(w) }
 func cdDe(p reflect.Value, r io.Reader) error  { return p.Interface().(cdSerDe).Deserialize(r) }
@@ -536,7 +542,7 @@ func cdBuildTypes() {
 		},
 		de: func(in []byte) (any, int64, []int64, error) {
 			r := bytes.NewReader(in)
-			m, err := cdDecodeMessage(r)
+			m, err := cdDecodeMessage(cdPlain{r})
 			return m, int64(len(in) - r.Len()), nil, err
 		},
 	}
@@ -717,7 +723,7 @@ func cdOpStream(in []byte) (Obs, any) {
 	class, consumed := int64(OK), int64(0)
 	for r.Len() > 0 && class == OK {
 		var m cdMessage
-		class = cdTry(func() (err error) { m, err = cdDecodeMessage(r); return })
+		class = cdTry(func() (err error) { m, err = cdDecodeMessage(cdPlain{r}); return })
 		if class != PANIC {
 			consumed = int64(len(in) - r.Len())
 		}
